@@ -308,4 +308,9 @@ messageq_t *fibre_verif_atomic_runq(void)
 {
 	return &kernel.atomic_runq;
 }
+
+void *fibre_verif_taint_flags(void)
+{
+	return (void *) &kernel.taint_flags;
+}
 #endif /* LIBRFN_VERIF */
